@@ -2,6 +2,7 @@ package proto
 
 import (
 	"encoding/binary"
+	"math"
 
 	"github.com/go-faster/errors"
 )
@@ -140,6 +141,9 @@ func (c *ColStr) DecodeColumn(r *Reader, rows int) error {
 		}
 
 		p.Start = p.End
+		if n > math.MaxInt-p.End {
+			return errors.Errorf("row %d: length %d overflows column size", i, n)
+		}
 		p.End += n
 
 		if len(c.Buf) < p.End {
